@@ -7,7 +7,7 @@ def me(rule):
 
 def pool(rule):
     return dict(module='grpcgcp', pkg='grpcgcp', harness='grpcgcp',
-                instrument=[{'pkg': 'grpcgcp'}, {'pkg': 'grpcgcp/multiendpoint'}], level='model_checking',
+                instrument=[{'pkg': 'grpcgcp', 'vgrpc': 'gcp_multiendpoint.go'}, {'pkg': 'grpcgcp/multiendpoint'}], level='model_checking',
                 workers={'quick': 16, 'thorough': 16}, deadline_s={'quick': 240, 'thorough': 1500}, rule=rule)
 
 CHECKS = {
@@ -18,9 +18,12 @@ for p in ['C01', 'C02', 'C03', 'C04', 'C05', 'C06', 'C07', 'C08', 'C09', 'C20']:
     CHECKS[p] = pool('explicit-state BFS over histories of balancer callbacks, picks, completions and clock advances on the real gcpBalancer over a fake ClientConn; distinct canonical state keys in which the premise of a rule of this property was exercised')
 
 CHECKS['C12'] = dict(module='grpcgcp', pkg='grpcgcp', harness='grpcgcp',
-                     instrument=[{'pkg': 'grpcgcp'}, {'pkg': 'grpcgcp/multiendpoint'}], level='model_checking',
+                     instrument=[{'pkg': 'grpcgcp', 'vgrpc': 'gcp_multiendpoint.go'}, {'pkg': 'grpcgcp/multiendpoint'}], level='model_checking',
                      workers={'quick': 16, 'thorough': 16}, deadline_s={'quick': 240, 'thorough': 1500},
                      rule='all interleavings (bounded preemptions/deviations) of sender/receiver/canceller/prober threads on the real stream wrapper, plus all combinations of a small input menu for the unary interceptor; non-trivial = distinct (end state, outcome) pairs of executions in which the stream was created or the context cancelled')
+
+for p in ['C15', 'C16']:
+    CHECKS[p] = pool('explicit-state BFS over histories of UpdateMultiEndpoints (valid and invalid option sets), pool connectivity changes, dial failures, RPC probes and Close on the real GCPMultiEndpoint over fake pools; non-trivial = states reached through at least one reconfiguration or connectivity change')
 
 BFS_NOTE = ('Bounded: depth/alphabet/configurations as reported in the evidence; small scope (<=3 channels/endpoints, 2 keys, <=3 open calls). '
             'Trusted: the instrumenter (vinstr) preserves semantics; the shims for sync/atomic/time/context; the fake environment (ClientConn, virtual clock/timers); the reference model written from the property statement.')
@@ -40,5 +43,7 @@ META = {
     'C12': _m('schedule-dfs', 'stateless model checking of the implementation: exhaustive DFS over thread interleavings under a controlled scheduler (iterative preemption bounding), per-execution oracles', 'Every interleaving within the preemption bound of SendMsg/RecvMsg/CloseSend/Header/Trailer/Context calls, stream creation success/failure and context cancellation is executed on the real wrapper; lost wake-ups show as blocked threads, panics are caught per thread.', 'DESIGN.md 4/C12', 'Bounded: preemption/deviation bounds and thread programs as reported. Trusted: instrumenter, sync/context shims (Cond wake-up order FIFO as in the runtime), fake streamer.'),
     'C13': _m('history-bfs', T_BFS, 'The real multiEndpoint is driven through every history up to the depth bound for every (recovery, delay) class and compared with an independent reference after every transition.', 'DESIGN.md 4/C13'),
     'C14': _m('history-bfs', T_BFS, 'Window, delay and convergence rules; convergence (L1) is decided from every reached state by firing all pending timers to exhaustion.', 'DESIGN.md 4/C14'),
+    'C15': _m('history-bfs', T_BFS, 'After every transition every context (none, known, unknown name) x (unary, stream) is probed and must reach the pool of the reference current endpoint; pool set, re-dial, close-once and monitor liveness are checked after every reconfiguration.', 'DESIGN.md 4/C15'),
+    'C16': _m('history-bfs', T_BFS, 'Every invalid option kind and dial failure, as constructor argument and at any later position, must be rejected with routing unchanged; Close and failed construction must leave no open pool and no live thread (the scheduler knows every thread the object spawned).', 'DESIGN.md 4/C16'),
     'C20': _m('history-bfs', T_BFS, 'Address lists handed to every connection (creation, update, take-over) are tracked by the fake ClientConn and compared with the latest resolver result after every transition.', 'DESIGN.md 4/C20'),
 }
